@@ -151,8 +151,28 @@ def _shard(arg):
             o = draw(st.sampled_from(["zero3D_1", "ico_3", "cube3D_4", "randomS_5"]))
             t = draw(st.sampled_from(["[0.3]", "[0.2, 0.4]", "linspace(0.25, 0.5, 3)"]))
             return {"kind": "fullgrid", "b": b, "o": o, "t": t}
+        layout = draw(st.sampled_from(["free", "free", "blocks"]))
         K = draw(st.integers(1, 40))
         pos = [[draw(st.integers(-4000, 4000)) / 100 for _ in range(3)] for _ in range(K)]
+        if layout == "blocks":
+            # product-like arrays that are not a grid: a few positions, each repeated for a block of rows, with the
+            # orientations of a small set in a different order (or a different subset) at every position
+            n_pos, n_q = draw(st.integers(2, 5)), draw(st.integers(2, 6))
+            qset = []
+            for _ in range(n_q):
+                q = [draw(st.integers(-100, 100)) for _ in range(4)]
+                qset.append([float(x) for x in (q if any(q) else [0, 0, 0, 1])])
+            pos_set = pos[:n_pos] + [[1.0 * i, 2.0, 3.0] for i in range(n_pos - len(pos[:n_pos]))]
+            pos, quats = [], []
+            same_block = draw(st.booleans())
+            for pi in range(n_pos):
+                order = list(draw(st.permutations(range(n_q))))
+                if not same_block:
+                    order = order[:draw(st.integers(1, n_q))]
+                for qi in order:
+                    pos.append(pos_set[pi])
+                    quats.append(qset[qi])
+            return {"kind": "array", "positions": pos, "quats": quats, "layout": "blocks"}
         quats = []
         for _ in range(K):
             kind = draw(st.sampled_from(["generic", "generic", "small_angle", "small_angle", "half_turn", "identity"]))
@@ -185,7 +205,7 @@ def _shard(arg):
             nontrivial = sc in ("planar", "generic") and angles.max() > 0.1
             small = bool(((angles > 1e-5) & (angles < 1e-2)).any()) or bool(((2 * np.pi - angles > 1e-5) & (2 * np.pi - angles < 1e-2)).any())
             res.case(sample=case, nontrivial=nontrivial, key=case,
-                     classes=[f"m2={sc}", f"grid={grid['kind']}", f"fmt={m1['fmt']}+{m2['fmt']}"]
+                     classes=[f"m2={sc}", f"grid={grid['kind']}" + ("_blocks" if grid.get("layout") == "blocks" else ""), f"fmt={m1['fmt']}+{m2['fmt']}"]
                      + (["has_small_nonzero_rotation(1e-5..1e-2 rad)"] if small else []))
             if msgs:
                 fail(case, "; ".join(msgs[:3]))
@@ -204,7 +224,7 @@ def run(tier):
     res = merge_results(pmap(_shard, [(s, total // 16) for s in range(16)]))
     rule = ("Hypothesis: molecule 1 and 2 with 1..12 atoms (H, C, N, O, S; single atom / collinear / planar / generic; coordinates "
             "with 2 decimals in [-8, 8] A, off-centre), written as .xyz or .gro and read through OneMoleculeReader; grid = a real "
-            "full-grid array (16 small specifications) or 1..40 arbitrary rows (positions in [-40, 40] A, normalised integer "
+            "full-grid array (16 small specifications) or 1..40 arbitrary rows, or block-structured arrays (2..5 positions x permuted subsets of 2..6 orientations) (positions in [-40, 40] A, normalised integer "
             "quaternions); a random frame read order. Non-trivial = molecule 2 with >=3 non-collinear atoms and some rotation "
             "angle > 0.1 rad; distinct = distinct input.")
     return res, rule, {"assumptions": ["tolerance 2e-4 A (float32 coordinates inside MDAnalysis)",
